@@ -462,7 +462,7 @@ def fam_ephemeral(tier, base):
     inputs, trace = base + ".in.ndjson", base + ".trace.ndjson"
     n = verif.emit_inputs(r, inputs)
     b = verif.build_driver("locks")
-    verif.run_driver(b, "TestEphemeral", env={"VERIF_INPUTS": inputs, "VERIF_TRACE": trace, "VERIF_PAR": 48 if tier == "quick" else 96}, timeout=7000)
+    verif.run_driver(b, "TestEphemeral", env={"VERIF_INPUTS": inputs, "VERIF_TRACE": trace, "VERIF_PAR": 48}, timeout=7000)
     os.remove(inputs)
     viols, tr = verif.validate_trace("Trace_Ephemeral", "Trace_Ephemeral.cfg", trace)
     lines = verif.read_lines(trace)
